@@ -2337,6 +2337,7 @@ theorem foreach_core {sc : Scope} (hs : ScOk sc) (v : Bytes) (hv : v.contains 36
     (e1 e2 : JEnv) (h1 : execStmt F fuel (.var xl j) jenv = .ok e1) (h2 : execStmt F fuel (.varLength xn xl) e1 = .ok e2) :
     ∃ xs js, Spec.Eval.eval env list = .val (.list xs) ∧ C04c.toJsList xs = some js ∧
       EnvRel sc env e2 ∧ BufIs buf e2 out ∧ Keeps buf sc.n jenv e2 ∧
+      e2 = setLocal (setLocal jenv xl (.arr js)) xn (.num js.length) ∧
       e2.locals.find? (·.1 == xn) = some (xn, .num js.length) ∧
       (∀ e', execStmt F fuel (.forUp xi xn (.cons (.varIndex lv xl xi) rb.1)) e2 = .ok e' →
         ∃ text, Spec.Eval.loopSpec (refBlock F ae body) env v (xs.length - 1) xs 0 = .val text ∧
@@ -2384,7 +2385,7 @@ theorem foreach_core {sc : Scope} (hs : ScOk sc) (v : Bytes) (hv : v.contains 36
     rw [find_setLocal_ne _ xn buf _ (by rw [hxn]; exact (nb _ _).symm),
       find_setLocal_ne _ xl buf _ (by rw [hxl]; exact (nb _ _).symm)]
     exact hb
-  refine ⟨xs, js, hlvv, hxs, hrel2, hb2, k12, find_setLocal_eq _ _ _, ?_⟩
+  refine ⟨xs, js, hlvv, hxs, hrel2, hb2, k12, rfl, find_setLocal_eq _ _ _, ?_⟩
   intro e' hx
   simp only [execStmt] at hx
   have k3 : Keeps buf sc.n (setLocal (setLocal jenv xl (.arr js)) xn (.num js.length))
@@ -2418,7 +2419,7 @@ theorem forc_none_ok (p : Nat) (v : Bytes) (list : Expr) (body : Block) (ihb : B
   obtain ⟨e3, h3, hx⟩ := sres_bind_ok hx
   simp only [SRes.ok.injEq] at hx
   subst hx
-  obtain ⟨xs, js, hev, hxs, _, _, k12, _, hloop⟩ := foreach_core F ae buf hbuf hs v hv list j hj body rbv hrb ihb env jenv out
+  obtain ⟨xs, js, hev, hxs, _, _, k12, _, _, hloop⟩ := foreach_core F ae buf hbuf hs v hv list j hj body rbv hrb ihb env jenv out
     hrel hb fuel _ _ _ _ rfl rfl rfl rfl e1 e2 h1 h2
   obtain ⟨text, ht, hb', hk'⟩ := hloop e3 h3
   have hk := k12.trans hk' (Nat.le_refl _)
@@ -2451,7 +2452,7 @@ theorem forc_some_ok (p : Nat) (v : Bytes) (list : Expr) (body ie : Block) (ihb 
   obtain ⟨e3, h3, hx⟩ := sres_bind_ok hx
   simp only [SRes.ok.injEq] at hx
   subst hx
-  obtain ⟨xs, js, hev, hxs, hrel2, hb2, k12, hfn, hloop⟩ := foreach_core F ae buf hbuf hs v hv list j hj body rbv hrb ihb
+  obtain ⟨xs, js, hev, hxs, hrel2, hb2, k12, _, hfn, hloop⟩ := foreach_core F ae buf hbuf hs v hv list j hj body rbv hrb ihb
     env jenv out hrel hb fuel _ _ _ _ rfl rfl rfl rfl e1 e2 h1 h2
   have hlen := C04c.toJsList_length xs js hxs
   have hst : rbv.2.pop.stack = sc.stack := by
@@ -3013,10 +3014,10 @@ example : refCmds sampleF .off sampleSwitch { vars := [(b!"n", .int 2)], loops :
     * `ref_le_spec_cmds` / `gen_correct_cmds_spec` — without print directives and with
       soy.$$escapeHtml read as `htmlEscape ∘ ToString` (`EscapeHtmlIs`, a LIBRARY obligation),
       `refCmds` is Spec/Eval.renderCmds, the specification C02Spec proves the Go interpreter against.
-  DIRECTION: "if the JavaScript completes, the specification yields that text".  Not shown: that
-  the JavaScript completes whenever the specification yields a text (it does not always: a print
-  of a list or a map is text in Soy and `unspec` here; a `{foreach}` over a non-list is a Soy error
-  and a TypeError / nothing at all in JavaScript).
+  DIRECTION: "if the JavaScript completes, the specification yields that text".  The converse is
+  Props/C04e (`gen_complete_cmds_partial`): where `refCmds` renders a text the JavaScript completes with
+  it or leaves the common subset (`unspec`: a print of a list or a map is text in Soy and outside the
+  subset here, as is an integer beyond 2^53) — it never throws.
 
   OUTSIDE (no theorem at the command level): `range` with a computed step, the loop functions
   index / isFirst / isLast, `{call}` (needs a semantics of the generated FUNCTIONS and
